@@ -36,6 +36,13 @@ def n_cuts(wire_len: int, spec: dict) -> int:
 
 
 def draw(rng, wire_len: int, hot=(), allow_empty: bool = True, max_list: int = 400) -> dict:
+    spec = _draw(rng, wire_len, hot, allow_empty, max_list)
+    if rng.random() < 0.08:
+        spec["as"] = "bytearray"
+    return spec
+
+
+def _draw(rng, wire_len: int, hot=(), allow_empty: bool = True, max_list: int = 400) -> dict:
     """Seeded fragmentation. `hot` are interesting stream positions (message boundaries, escape
     octets, CR/LF, '!' ...): boundary-adversarial mode cuts right before / at / after them."""
     if wire_len <= 1:
